@@ -40,6 +40,11 @@ pub fn autoplay(millis: u64) {
             Some(_move) => _move,
             None => break,
         };
+        // The per-ply state stack holds 512 entries and `push` does not check for room:
+        // end the game at the same length limit the UCI `position` command enforces
+        if game.len() >= 400 {
+            break;
+        }
         game.push_history(next_move);
     }
 }
